@@ -116,6 +116,9 @@ inductive Op (α : Type)
   | dispel (t : Int) (status : Nat) (order : Nat) (count : Int)   -- order 2 first added, 1 last added, 3 random
   | tick (t : Int) (phase : Nat)     -- 0 turn start, 1 phase 1, 2 action end, 3 phase 2
   | instAddProp (t : Int) (uid : Nat) (p : Nat) (x : α)
+  | instSetProp (t : Int) (uid : Nat) (p : Nat) (x : α)      -- `Instance.SetProperty`
+  | instWeak (t : Int) (uid : Nat) (d : Nat) (on : Bool)      -- `Instance.AddWeakness` / `RemoveWeakness`
+  | instDres (t : Int) (uid : Nat) (f : Nat) (x : α)          -- `Instance.AddDebuffRES`
 
 variable {α : Type} [Num α]
 
@@ -445,6 +448,31 @@ def execWith (rec : St α → Op α → Option (St α)) (s : St α) : Op α → 
     match (s.targets t).find? (·.uid == uid) with
     | none => some s      -- the instance is no longer attached: its own data changes, nobody reads it
     | some i => propChange cat rec (setT s t (setInst (s.targets t) { i with stats := modProp i.stats p x })) t
+
+  | .instSetProp t uid p x =>
+    match (s.targets t).find? (·.uid == uid) with
+    | none => some s
+    | some i =>
+      -- `PropMap.Set`: the entry starts again from nothing, then the amount is applied as by `AddProperty`;
+      -- listeners hear about it only if the value changed
+      let cleared := i.stats.filter (·.1 != p)
+      let stats' := modProp cleared p x
+      let old := ((i.stats.find? (·.1 == p)).map (·.2)).getD 0
+      let new := ((stats'.find? (·.1 == p)).map (·.2)).getD 0
+      if Num.eqb old new then some (setT s t (setInst (s.targets t) { i with stats := stats' }))
+      else propChange cat rec (setT s t (setInst (s.targets t) { i with stats := stats' })) t
+  | .instWeak t uid d on =>
+    match (s.targets t).find? (·.uid == uid) with
+    | none => some s
+    | some i =>
+      let w := i.weak.filter (·.1 != d)
+      some (setT s t (setInst (s.targets t) { i with weak := if on then w ++ [(d, true)] else w }))
+  | .instDres t uid f x =>
+    match (s.targets t).find? (·.uid == uid) with
+    | none => some s
+    | some i =>
+      let cur := ((i.dres.find? (·.1 == f)).map (·.2)).getD 0
+      some (setT s t (setInst (s.targets t) { i with dres := i.dres.filter (·.1 != f) ++ [(f, cur + x)] }))
 
 /-- fuel-bounded execution -/
 def exec : Nat → St α → Op α → Option (St α)
